@@ -122,7 +122,26 @@ def sem(I, fr, op, v):
         f = SEM.get(getattr(k, 'qualname', None))
         if f is not None:
             return f(I, fr, op, v)
-    raise Unsupported('no semantic function for operator class %s' % op.cls.name)
+    # helper operator classes without a table entry (e.g. the ad-hoc gradient operators of functionals):
+    # their real _call is executed in place (inlined; operands are still seen through contracts)
+    return sem_by_execution(I, fr, op, v)
+
+
+def sem_by_execution(I, fr, op, v):
+    dom = I._getattr(op, 'domain', fr)
+    if is_field_obj(I, dom):
+        x = v
+    else:
+        x = getattr(dom, 'builder').element(cont=v if isinstance(v, V) else VConst(v))
+    f = I.get_func(OP + 'Operator.__call__')
+    fr.st.depth += 1
+    try:
+        if fr.st.depth > 40:
+            raise Unsupported('semantic evaluation too deep')
+        r = I.call_func(f, [op, x], {}, fr)
+    finally:
+        fr.st.depth -= 1
+    return value_of(r)
 
 
 def _g(I, fr, o, name):
